@@ -63,6 +63,7 @@ class Contract:
         self.lineno = 0
         self.notes = []
         self.case_splits = []
+        self.logicals = {}        # ghost (universally quantified) parameters: name -> type
         self.fuel = 1
         self.timeout = None
 
@@ -72,7 +73,8 @@ class Contract:
 
 
 _SPEC_CALLS = {"requires", "ensures", "raises", "raises_only", "modifies", "terminates", "loop", "ghost", "local",
-               "mode", "returns", "decreases", "cover", "yields", "note", "case_split", "fuel", "timeout", "domain"}
+               "mode", "returns", "decreases", "cover", "yields", "note", "case_split", "fuel", "timeout", "domain",
+               "logical"}
 
 
 def _const(node):
@@ -95,10 +97,10 @@ def _parse_body(c, body):
                 c.ensures += call.args
             elif f == "raises":
                 for a in call.args:
-                    c.raises.append((a.id, kw.get("when")))
+                    c.raises.append((a.id if isinstance(a, ast.Name) else ast.unparse(a), kw.get("when"), kw.get("ensures")))
             elif f == "raises_only":
                 for a in call.args:
-                    c.raises.append((a.id, None))
+                    c.raises.append((a.id, None, None))
                 c.raises_only_declared = True
             elif f == "modifies":
                 c.modifies += call.args
@@ -139,6 +141,9 @@ def _parse_body(c, body):
                 c.covers += call.args
             elif f == "domain":
                 c.covers.append(call)
+            elif f == "logical":
+                for k, v in kw.items():
+                    c.logicals[k] = _const(v)
             elif f == "note":
                 c.notes.append(_const(call.args[0]))
             elif f == "case_split":
